@@ -224,7 +224,11 @@ func c02RunBatch(m *vk.M, b int, racing bool) {
 			c02ScUnlimited(c, e, do, e.routes["conns"][0], 24, r)
 			return
 		}
-		c02ScMaxConns(c, e, do, e.routes["conns"][0], bc.MaxConns, 1+r.Intn(4), r)
+		k := 1 + r.Intn(4)
+		if b%2 == 0 { // a real overload burst: many more rejections than admitted requests
+			k = 30 + r.Intn(30)
+		}
+		c02ScMaxConns(c, e, do, e.routes["conns"][0], bc.MaxConns, k, r)
 	})
 	worker("upgrade", func(r *rand.Rand) {
 		// websocket upgrade requests bypass the timeout handler: still the handler's response
